@@ -84,6 +84,7 @@ type Hist struct {
 	MaxSlots int    `json:"max_outstanding_slots"`
 	Ops      []Op   `json:"ops"`
 	Repeat   int    `json:"repeat,omitempty"`
+	Hooks    string `json:"hooks,omitempty"`  // Session.Receive callbacks: "" | server | client | both
 	Kind     string `json:"kind,omitempty"`   // "" (operator history) | "rekey-race"
 	Rounds   int    `json:"rounds,omitempty"` // rekey-race
 }
@@ -259,6 +260,7 @@ type chanEp struct {
 	start, end time.Time
 	ended      bool
 	clientIn   bool
+	serverIn   bool
 	line       string
 }
 
@@ -279,10 +281,13 @@ func episodes(lines []logLine, tag string) []chanEp {
 			if strings.Contains(l.s, client) {
 				eps[len(eps)-1].clientIn = true
 			}
+			if strings.Contains(l.s, ":S->C:") {
+				eps[len(eps)-1].serverIn = true
+			}
 		case strings.Contains(l.s, "indicated channel close") || strings.Contains(l.s, "Breaking Channel") ||
 			strings.Contains(l.s, "Closed Channel") || (l.lv == 'E' && inChannelPath(l)):
 			if len(eps) == 0 {
-				eps = append(eps, chanEp{start: l.t, clientIn: true})
+				eps = append(eps, chanEp{start: l.t, clientIn: true, serverIn: true})
 			}
 			if e := &eps[len(eps)-1]; !e.ended {
 				e.ended, e.end, e.line = true, l.t, l.s
@@ -336,13 +341,17 @@ func chanVerdict(lines []logLine, tag string, offs []time.Time, from, to time.Ti
 			}
 			return "chan-open", ""
 		}
+		// a channel only one end entered is never a regular teardown, whatever the operator did
+		if !e.clientIn {
+			return "chan-start", e.line
+		}
+		if !e.serverIn {
+			return "chan-client-only", e.line
+		}
 		for _, t := range offs {
 			if !t.Before(e.start.Add(-50*time.Millisecond)) && !t.After(e.end.Add(5*time.Millisecond)) {
 				return "chan", e.line
 			}
-		}
-		if !e.clientIn {
-			return "chan-start", e.line
 		}
 		// The server's writer is told to stop (pick returns nil on a wake token) by conn.stop of
 		// its own reader, i.e. AFTER the reader logged its end, or after the operator's switch.
@@ -798,7 +807,21 @@ func runHist(h Hist, idSeed uint64) (res HRes) {
 	}
 	srv, clients, cleanup := startWorld(h, r, idSeed, nil)
 	defer cleanup()
-	_ = srv
+	// the exported callbacks only count: the property must hold whether they are set or not
+	var hookCalls int32
+	srv.New = func(*c2.Session) { atomic.AddInt32(&hookCalls, 1) }
+	srv.Shutdown = func(*c2.Session) { atomic.AddInt32(&hookCalls, 1) }
+	srv.Oneshot = func(*com.Packet) { atomic.AddInt32(&hookCalls, 1) }
+	for _, c := range clients {
+		c.sess.Shutdown = func(*c2.Session) { atomic.AddInt32(&hookCalls, 1) }
+		if h.Hooks == "server" || h.Hooks == "both" {
+			c.ss.Receive = func(*c2.Session, *com.Packet) { atomic.AddInt32(&hookCalls, 1) }
+		}
+		if h.Hooks == "client" || h.Hooks == "both" {
+			c.sess.Receive = func(*c2.Session, *com.Packet) { atomic.AddInt32(&hookCalls, 1) }
+		}
+	}
+	defer func() { res.Stats["hook_calls"] = int(atomic.LoadInt32(&hookCalls)) }()
 	var (
 		keys0    = make([]uint32, h.NCl)
 		chanUsed = make([]bool, h.NCl)
@@ -897,10 +920,16 @@ func runHist(h Hist, idSeed uint64) (res HRes) {
 		switch op.Kind {
 		case "pause":
 			time.Sleep(time.Duration(op.Val) * time.Millisecond)
-		case "chan":
+		case "chan", "cchan":
 			r.mu.Lock()
-			c.ss.SetChannel(op.On)
-			r.trace = append(r.trace, Ev{T: "chan", C: op.C, On: op.On})
+			if op.Kind == "chan" {
+				c.ss.SetChannel(op.On)
+				r.trace = append(r.trace, Ev{T: "chan", C: op.C, On: op.On})
+			} else {
+				// the switch made on the CLIENT Session (the flag packet travels in its queue;
+				// no effect on jobs in the model: like KeepAlive)
+				c.sess.SetChannel(op.On)
+			}
 			chanOn[op.C] = op.On
 			if !op.On {
 				offs[op.C] = append(offs[op.C], time.Now())
@@ -1330,6 +1359,7 @@ func sizeGrid() []int {
 func genHist(r *vh.Rand, k int, class, prof string, nops int, big bool) Hist {
 	h := Hist{K: k, Class: class, Profile: prof, NCl: 2 + r.Intn(2), MaxSlots: 100}
 	h.MaxJobs = []int{1, 4, 16, 40, 40}[r.Intn(5)]
+	h.Hooks = []string{"", "", "server", "client", "both"}[r.Intn(5)]
 	for i := 0; i < h.NCl; i++ {
 		h.SleepMs = append(h.SleepMs, []int{5, 10, 20}[r.Intn(3)])
 	}
@@ -1355,6 +1385,9 @@ func genHist(r *vh.Rand, k int, class, prof string, nops int, big bool) Hist {
 		case x < 80 && prof == "none":
 			// (with a wrapper or transform a channel over TCP never works: known finding, corpus only)
 			op.Kind, op.On = "chan", r.Intn(5) < 3
+			if r.Intn(3) == 0 {
+				op.Kind = "cchan" // switched on the client Session
+			}
 		case x < 80:
 			op.Kind, op.Val = "pause", 1+r.Intn(40)
 		case x < 86:
@@ -1417,6 +1450,17 @@ func corpus() []Hist {
 				{Kind: "chan", C: 0, On: true}, {Kind: "pause", Val: 60}, {Kind: "task", C: 0, Size: 100, Seed: 44}, {Kind: "pause", Val: 300},
 				{Kind: "task", C: 0, Size: 1024, Seed: 45}, {Kind: "pause", Val: 300}, {Kind: "chan", C: 0, On: false}, {Kind: "pause", Val: 400},
 				{Kind: "chan", C: 0, On: true}, {Kind: "pause", Val: 60}, {Kind: "task", C: 0, Size: 1, Seed: 46}, {Kind: "task", C: 1, Size: 100, Seed: 47}}},
+		{Class: "corpus-receive-hooks", NCl: 2, Profile: "none", Hooks: "both", SleepMs: []int{10, 10}, MaxJobs: 40, MaxSlots: 100,
+			Ops: []Op{{Kind: "task", C: 0, Size: 100, Seed: 51}, {Kind: "task", C: 1, Size: 1024, Seed: 52}, {Kind: "task", C: 0, Size: F + 1, Seed: 53},
+				{Kind: "sleep", C: 1, Val: 5}, {Kind: "task", C: 1, Size: 0, Seed: 54}}},
+		{Class: "corpus-receive-server", NCl: 2, Profile: "none", Hooks: "server", SleepMs: []int{10, 10}, MaxJobs: 40, MaxSlots: 100,
+			Ops: []Op{{Kind: "task", C: 0, Size: 100, Seed: 55}, {Kind: "task", C: 1, Size: 1, Seed: 56}}},
+		{Class: "corpus-receive-client", NCl: 2, Profile: "none", Hooks: "client", SleepMs: []int{10, 10}, MaxJobs: 40, MaxSlots: 100,
+			Ops: []Op{{Kind: "task", C: 0, Size: 100, Seed: 57}, {Kind: "task", C: 1, Size: 1, Seed: 58}}},
+		{Class: "corpus-client-channel", NCl: 2, Profile: "none", SleepMs: []int{20, 20}, MaxJobs: 40, MaxSlots: 100,
+			Ops: []Op{{Kind: "task", C: 0, Size: 100, Seed: 61}, {Kind: "cchan", C: 0, On: true}, {Kind: "pause", Val: 60}, {Kind: "task", C: 0, Size: 100, Seed: 62},
+				{Kind: "pause", Val: 200}, {Kind: "task", C: 0, Size: 1024, Seed: 63}, {Kind: "task", C: 1, Size: 100, Seed: 64}, {Kind: "pause", Val: 200},
+				{Kind: "cchan", C: 0, On: false}, {Kind: "pause", Val: 300}, {Kind: "task", C: 0, Size: 1, Seed: 65}}},
 		burst("corpus-channel-burst", 400),
 		teardown("corpus-channel-teardown", 100, 44),
 		teardown("corpus-channel-teardown-frag", F+1, 14),
@@ -1741,7 +1785,7 @@ func main() {
 				continue
 			}
 			out.Fail(f.What, f.Key, map[string]interface{}{"k": h.K, "class": h.Class, "clients": h.NCl, "profile": h.Profile, "sleep_ms": h.SleepMs,
-				"max_outstanding_jobs": h.MaxJobs, "max_outstanding_slots": h.MaxSlots, "ops": h.Ops, "kind": h.Kind, "rounds": h.Rounds, "log_tail": res.Diag})
+				"max_outstanding_jobs": h.MaxJobs, "max_outstanding_slots": h.MaxSlots, "ops": h.Ops, "kind": h.Kind, "rounds": h.Rounds, "hooks": h.Hooks, "log_tail": res.Diag})
 		}
 		if res.Retried {
 			retried++
